@@ -11,6 +11,8 @@ type Float struct {
 
 func NewFloat(typ string) *Float {
 	number := NewCharacteristic(typ)
+	number.Format = FormatFloat
+
 	return &Float{number}
 }
 
